@@ -9,7 +9,7 @@ EXPLANATION = ('Static rules on BehaviorSubject: B1 next() stores the new value 
                'a clone of the cell content to the new observer and then joins the inner subject; B3 the value cell is the subject family\'s '
                'shared pointer type (MutRc/MutArc, whose Clone clones the pointer), so all clones see one value; B4/B5 store+broadcast and '
                'replay+join each lie in one critical section (required for the thread-safe form; reported as known findings today); next_by = '
-               'peek, user f, next; B9 the inner subject hands every later item to every subscriber it accepted (same rules as C06.J1/J2/J6); B8 peek() takes only the shared (read) guard of the value cell; B7 no method holds the exclusive (write) guard of the value cell while it broadcasts, calls the new observer or runs a user closure (peek()/next_by()/subscribe from inside a callback must work). Does not decide exactly-once delivery of later items (C06) nor values.')
+               'peek, user f, next; B9 the inner subject hands every later item to every subscriber it accepted (same rules as C06.J1/J2/J6); B10 subscribing and emitting lock the two subscriber lists of the inner subject in one order (same rule as C06.J10: a late subscriber of the thread-safe form cannot block the producer); B8 peek() takes only the shared (read) guard of the value cell; B7 no method holds the exclusive (write) guard of the value cell while it broadcasts, calls the new observer or runs a user closure (peek()/next_by()/subscribe from inside a callback must work). Does not decide exactly-once delivery of later items (C06) nor values.')
 ASSUMPTIONS = ['B4/B5 concern SubjectThreads instantiations with concurrent producers only']
 
 CONTROLS = [
@@ -52,7 +52,7 @@ def check(cx):
 
 def b9(cx):
     """'then every later item exactly once': the inner subject moves every waiting subscriber into the live list and broadcasts to all
-    of them (same rules as C06.J1/J2/J6 for Subject and SubjectThreads)"""
+    of them (same rules as C06.J1/J2/J6 for Subject and SubjectThreads); B10 the two subscriber lists are locked in one order by subscribe and by emission (C06.J10)"""
     if cx.control:
         return []
     from . import c06
@@ -60,6 +60,11 @@ def b9(cx):
     for f in c06.check(cx):
         if f.rule in ('J1', 'J2', 'J6') and ('subject::Subject<' in f.key or 'subject::SubjectThreads<' in f.key):
             out.append(Finding(ID, 'B9', f.rule + ':' + f.key, f.ok, f.msg, f.loc, f.witness))
+        # B10: subscribing (which parks the newcomer in the waiting list) and emitting (which moves the waiting list into the live one)
+        # take the two list cells in one order: a late subscriber of a thread-safe BehaviorSubject that arrives during an emission
+        # would otherwise block the producer for ever, and nobody receives the later items (same rule as C06.J10 / C10.L3a)
+        if f.rule == 'J10':
+            out.append(Finding(ID, 'B10', f.key, f.ok, f.msg, f.loc, f.witness))
     return out
 
 
